@@ -661,3 +661,20 @@ func (y *Y) Ambiguous() string {
 	}
 	return ""
 }
+
+// rewrite replaces a substring in every string of the tree (keys and values).
+func (y *Y) rewrite(old, new string) {
+	switch y.K {
+	case KStr:
+		y.S = strings.ReplaceAll(y.S, old, new)
+	case KList:
+		for _, x := range y.L {
+			x.rewrite(old, new)
+		}
+	case KMap:
+		for _, e := range y.M {
+			e.K.rewrite(old, new)
+			e.V.rewrite(old, new)
+		}
+	}
+}
